@@ -325,6 +325,8 @@ struct Decoded {
     getters: Vec<Tr>,
     embedded: Tr,
     panics: Vec<String>,
+    /// RpcStatusExt on the decoded pb::Status disagrees with StatusExt on the tonic::Status
+    rpc_ext: Option<String>,
 }
 /// `[Nn 78; Nn i]`: equal to item i of the list shown by check_error_details_vec
 fn reference(i: usize) -> Tr {
@@ -415,7 +417,39 @@ fn decode_all(st: &Status) -> Decoded {
         &mut p,
         "pb::Status::decode",
     );
-    Decoded { check, get, check_vec, get_vec, getters, embedded, panics: p }
+    // the same getters exist on pb::Status (RpcStatusExt); they must agree
+    let mut rpc_ext = None;
+    if let Ok(Ok(inner)) = catch(AssertUnwindSafe(|| pb::Status::decode(st.details()))) {
+        use tonic_types::RpcStatusExt;
+        let r = catch(AssertUnwindSafe(|| {
+            let a = inner.check_error_details().map(|d| ok(tr_details(&d))).unwrap_or_else(|_| err());
+            let b = inner.check_error_details_vec().map(|d| ok(tr_vec(&d))).unwrap_or_else(|_| err());
+            let c = ok(tr_details(&inner.get_error_details()));
+            let e = ok(tr_vec(&inner.get_error_details_vec()));
+            let g = vec![
+                show(inner.get_details_retry_info().map(ErrorDetail::from)),
+                show(inner.get_details_debug_info().map(ErrorDetail::from)),
+                show(inner.get_details_quota_failure().map(ErrorDetail::from)),
+                show(inner.get_details_error_info().map(ErrorDetail::from)),
+                show(inner.get_details_precondition_failure().map(ErrorDetail::from)),
+                show(inner.get_details_bad_request().map(ErrorDetail::from)),
+                show(inner.get_details_request_info().map(ErrorDetail::from)),
+                show(inner.get_details_resource_info().map(ErrorDetail::from)),
+                show(inner.get_details_help().map(ErrorDetail::from)),
+                show(inner.get_details_localized_message().map(ErrorDetail::from)),
+            ];
+            (a, b, c, e, g)
+        }));
+        match r {
+            Err(pn) => p.push(format!("RpcStatusExt: {}", pn)),
+            Ok((a, b, c, e, g)) => {
+                if a != check || b != check_vec || c != get || e != get_vec || g != getters {
+                    rpc_ext = Some("RpcStatusExt on the decoded pb::Status disagrees with StatusExt on the status".to_string());
+                }
+            }
+        }
+    }
+    Decoded { check, get, check_vec, get_vec, getters, embedded, panics: p, rpc_ext }
 }
 
 /// `obs_via_headers`: add_header, from_header_map, decode; the status read back and its decoding
@@ -439,6 +473,7 @@ fn via_headers(st: &Status) -> (Tr, Option<(Status, Decoded)>, Option<String>) {
                 Tr::n(back.code() as i32 as u32),
                 ps(back.message()),
                 same_or(&raw, pb(back.details())),
+                hm_tr(&back.metadata().clone().into_headers()),
                 d.tr(),
             ]);
             (t, Some((back, d)), None)
@@ -447,15 +482,35 @@ fn via_headers(st: &Status) -> (Tr, Option<(Status, Decoded)>, Option<String>) {
 }
 
 // ------------------------------------------------------------------ the oracle for attached details
-/// what the property promises for a detail: the value that was attached (RetryInfo::new's clamp
-/// is part of constructing the value).  None: a literal delay outside the protobuf range, which
-/// the property does not cover.
+/// what the property promises for a detail: the value that was attached, computed from the harness's
+/// own description only (RetryInfo::new's clamp is part of constructing the value and is redone by
+/// hand).  Wildcard: a literal delay outside the protobuf range, which the property does not cover.
 fn expected(d: &Det) -> Tr {
-    let (v, _, _) = build(d);
-    if !in_range(d) {
-        return Tr::tag(0, vec![Tr::N(WILD)]);
+    let b = |x: &String| ps(x);
+    let pairs = |v: &Vec<(String, String)>| Tr::L(v.iter().map(|(x, y)| Tr::L(vec![b(x), b(y)])).collect());
+    match d {
+        Det::Retry { delay, via_new } => {
+            if !in_range(d) {
+                return Tr::tag(0, vec![Tr::N(WILD)]);
+            }
+            // RetryInfo::new's documented clamp, by hand: above 315,576,000,000.999999999 s it is that value
+            let shown = delay.map(|(s, n)| if *via_new && (s, n) > (PB_MAX_SECS, 999_999_999) { (PB_MAX_SECS, 999_999_999) } else { (s, n) });
+            Tr::tag(0, vec![Tr::opt(shown.map(|(s, n)| Tr::L(vec![Tr::n(s), Tr::n(n)])))])
+        }
+        Det::Debug(stack, detail) => Tr::tag(1, vec![Tr::L(stack.iter().map(b).collect()), b(detail)]),
+        Det::Quota(v) => Tr::tag(2, vec![pairs(v)]),
+        Det::Info(r, dm, md) => {
+            let mut sorted: Vec<(Vec<u8>, Vec<u8>)> = md.iter().map(|(k, v)| (k.as_bytes().to_vec(), v.as_bytes().to_vec())).collect();
+            sorted.sort();
+            Tr::tag(3, vec![b(r), b(dm), Tr::L(sorted.iter().map(|(k, v)| Tr::L(vec![pb(k), pb(v)])).collect())])
+        }
+        Det::Prec(v) => Tr::tag(4, vec![Tr::L(v.iter().map(|(x, y, z)| Tr::L(vec![b(x), b(y), b(z)])).collect())]),
+        Det::Bad(v) => Tr::tag(5, vec![pairs(v)]),
+        Det::Req(x, y) => Tr::tag(6, vec![b(x), b(y)]),
+        Det::Res(x, y, z, w) => Tr::tag(7, vec![b(x), b(y), b(z), b(w)]),
+        Det::Help(v) => Tr::tag(8, vec![pairs(v)]),
+        Det::Loc(x, y) => Tr::tag(9, vec![b(x), b(y)]),
     }
-    tr_detail(&v)
 }
 fn in_range(d: &Det) -> bool {
     !matches!(d, Det::Retry { delay: Some((s, _)), via_new: false } if *s > PB_MAX_SECS)
@@ -472,9 +527,41 @@ fn same(a: &Tr, pat: &Tr) -> bool {
 
 /// direct check of the property on what came back; `list` = the attached details in the order
 /// they must come back, as (description, expected observable)
-fn judge(code: u32, msg: &str, list: &[Det], back: &Status, d: &Decoded, raw_before: &[u8]) -> Option<String> {
+/// the user metadata must arrive: every entry that was given, per name in order, except the names
+/// gRPC reserves; nothing else
+fn judge_md(md: &[(String, Vec<u8>)], back: &Status) -> Option<String> {
+    const RESERVED: [&str; 6] = ["te", "user-agent", "content-type", "grpc-message", "grpc-message-type", "grpc-status"];
+    let got = back.metadata();
+    let mut names: Vec<&str> = md.iter().map(|(k, _)| k.as_str()).filter(|k| !RESERVED.contains(k)).collect();
+    names.sort();
+    names.dedup();
+    for k in &names {
+        let want: Vec<&Vec<u8>> = md.iter().filter(|(k2, _)| k2 == k).map(|(_, v)| v).collect();
+        let have: Vec<Vec<u8>> = if k.ends_with("-bin") {
+            got.get_all_bin(*k).iter().map(|v| v.to_bytes().map(|b| b.to_vec()).unwrap_or_default()).collect()
+        } else {
+            got.get_all(*k).iter().map(|v| v.as_bytes().to_vec()).collect()
+        };
+        if have.len() != want.len() || have.iter().zip(&want).any(|(a, b)| a != *b) {
+            return Some(format!("user metadata `{}` did not arrive unchanged ({} of {} values)", k, have.len(), want.len()));
+        }
+    }
+    let expected_entries = md.iter().filter(|(k, _)| !RESERVED.contains(&k.as_str())).count();
+    if got.len() != expected_entries {
+        return Some(format!("status read back carries {} metadata entries, {} were given (reserved names excluded)", got.len(), expected_entries));
+    }
+    None
+}
+
+fn judge(code: u32, msg: &str, list: &[Det], md: &[(String, Vec<u8>)], back: &Status, d: &Decoded, raw_before: &[u8]) -> Option<String> {
     if !d.panics.is_empty() {
         return Some(format!("panic: {}", d.panics[0]));
+    }
+    if let Some(w) = judge_md(md, back) {
+        return Some(w);
+    }
+    if let Some(w) = &d.rpc_ext {
+        return Some(w.clone());
     }
     if back.code() as i32 as u32 != code || back.message() != msg {
         return Some("code or message changed across the header encoding".into());
@@ -564,7 +651,35 @@ fn gen_delay_any(r: &mut Rng) -> Option<(u64, u32)> {
     ];
     Some((*r.pick(BIG), *r.pick(NANOS)))
 }
+/// a detail that is present but carries nothing (all defaults): it must come back as present
+fn empty_det(k: usize) -> Det {
+    match k {
+        0 => Det::Retry { delay: None, via_new: true },
+        1 => Det::Debug(vec![], String::new()),
+        2 => Det::Quota(vec![]),
+        3 => Det::Info(String::new(), String::new(), vec![]),
+        4 => Det::Prec(vec![]),
+        5 => Det::Bad(vec![]),
+        6 => Det::Req(String::new(), String::new()),
+        7 => Det::Res(String::new(), String::new(), String::new(), String::new()),
+        8 => Det::Help(vec![]),
+        _ => Det::Loc(String::new(), String::new()),
+    }
+}
+fn is_empty_det(d: &Det) -> bool {
+    match d {
+        Det::Retry { delay, .. } => delay.is_none(),
+        x => *x == empty_det(x.kind()),
+    }
+}
 fn gen_det(r: &mut Rng, k: usize, out_of_range: bool) -> Det {
+    if !out_of_range && r.chance(1, 6) {
+        // present but empty, on purpose
+        return match (k, r.chance(1, 2)) {
+            (0, true) => Det::Retry { delay: None, via_new: false },
+            _ => empty_det(k),
+        };
+    }
     match k {
         0 => {
             if out_of_range {
@@ -598,11 +713,11 @@ fn rbytes(r: &mut Rng, lo: u64, hi: u64) -> Vec<u8> {
     r.bytes(n)
 }
 fn gen_md(r: &mut Rng) -> Vec<(String, Vec<u8>)> {
-    if r.chance(3, 4) {
+    if r.chance(1, 2) {
         return vec![];
     }
-    let keys = ["x-a", "x-trace-id", "x-payload-bin", "grpc-message", "te"];
-    (0..r.range(1, 3))
+    let keys = ["x-a", "x-a", "x-trace-id", "x-payload-bin", "x-other-bin", "authorization", "grpc-message", "te", "content-type"];
+    (0..r.range(1, 4))
         .map(|_| {
             let k = *r.pick(&keys);
             let v: Vec<u8> = if k.ends_with("-bin") { rbytes(r, 0, 5) } else { (0..r.range(0, 6)).map(|_| r.range(0x20, 0x7e) as u8).collect() };
@@ -672,7 +787,7 @@ fn size_bucket(n: usize) -> &'static str {
         _ => ">=16384",
     }
 }
-fn finish_attached(out: &mut Out, kind: String, input: Value, model: String, code: u32, msg: &str, list: &[Det], st: Result<Status, String>) {
+fn finish_attached(out: &mut Out, kind: String, input: Value, model: String, code: u32, msg: &str, list: &[Det], md: &[(String, Vec<u8>)], st: Result<Status, String>) {
     let (obs, oracle) = match st {
         Err(p) => (panicked(), Some(format!("panic while attaching the details: {}", p))),
         Ok(st) => {
@@ -680,13 +795,15 @@ fn finish_attached(out: &mut Out, kind: String, input: Value, model: String, cod
             out.hist("attached.details_bytes", size_bucket(st.details().len()));
             let oracle = match (&back, why) {
                 (_, Some(w)) => Some(w),
-                (Some((b, d)), None) => judge(code, msg, list, b, d, st.details()),
+                (Some((b, d)), None) => judge(code, msg, list, md, b, d, st.details()),
                 (None, None) => Some("no status".into()),
             };
             (t, oracle)
         }
     };
     out.hist("attached.count", list.len());
+    out.hist("attached.metadata_entries", md.len());
+    out.hist("attached.present_but_empty", list.iter().filter(|d| is_empty_det(d)).count());
     for d in list {
         out.hist("attached.kind", d.kind());
     }
@@ -712,7 +829,7 @@ fn case_set(out: &mut Out, prefix: &str, code: u32, msg: &str, ds: &[Option<Det>
     }).collect();
     let model = format!("obs_set {} {} {} {}", code, cs(msg), lit, coq_hm(&mdh));
     let input = json!({"code": code, "msg": hs(msg), "set": ds.iter().map(|d| d.as_ref().map(det_json)).collect::<Vec<_>>(), "style": style, "md": md_json(md)});
-    finish_attached(out, format!("{}set", prefix), input, model, code, msg, &list, st);
+    finish_attached(out, format!("{}set", prefix), input, model, code, msg, &list, md, st);
 }
 fn case_vec(out: &mut Out, prefix: &str, code: u32, msg: &str, ds: &[Det], md: &[(String, Vec<u8>)], plain: bool) {
     let mdm = md_map(md);
@@ -735,7 +852,7 @@ fn case_vec(out: &mut Out, prefix: &str, code: u32, msg: &str, ds: &[Det], md: &
     let input = json!({"code": code, "msg": hs(msg), "vec": ds.iter().map(det_json).collect::<Vec<_>>(), "plain": plain, "md": md_json(md)});
     let judged = ds.iter().all(in_range);
     let kind = if judged { format!("{}vec", prefix) } else { format!("{}vec.out_of_range", prefix) };
-    finish_attached(out, kind, input, model, code, msg, ds, st);
+    finish_attached(out, kind, input, model, code, msg, ds, md, st);
 }
 
 // ------------------------------------------------------------------ kind: hostile
@@ -760,6 +877,8 @@ fn case_hostile(out: &mut Out, prefix: &str, code: u32, msg: &str, details: &[u8
         let empty_vec = ok(Tr::L(vec![]));
         if !d.panics.is_empty() {
             oracle = Some(format!("panic: {}", d.panics[0]));
+        } else if let Some(w) = &d.rpc_ext {
+            oracle = Some(w.clone());
         } else if d.check == err() && d.get != empty_set {
             oracle = Some("check_error_details is Err but get_error_details is not empty".into());
         } else if d.check_vec == err() && d.get_vec != empty_vec {
@@ -1187,6 +1306,29 @@ fn corpus(out: &mut Out) {
         case_vec(out, p, 5, "", &[d.clone()], &[], true);
     }
     case_vec(out, p, 5, "", &empties, &[], true);
+    // all ten present but empty, as a set (both builder styles) and next to user metadata
+    {
+        let mut all: [Option<Det>; 10] = NONE10;
+        for (i, d) in empties.iter().enumerate() {
+            all[i] = Some(d.clone());
+        }
+        case_set(out, p, 5, "", &all, 0, &[]);
+        case_set(out, p, 5, "", &all, u64::MAX, &[]);
+        case_set(out, p, 0, "", &all, 3, &[(s("x-a"), b"1".to_vec())]);
+        case_vec(out, p, 5, "e", &[Det::Retry { delay: None, via_new: false }, Det::Bad(vec![]), Det::Retry { delay: None, via_new: true }], &[], false);
+    }
+    // user metadata: repeated names keep their order, binary values, reserved names are not sent
+    {
+        let md = vec![
+            (s("x-a"), b"first".to_vec()), (s("x-payload-bin"), vec![0, 255, 7]), (s("x-a"), b"second".to_vec()),
+            (s("grpc-message"), b"forged".to_vec()), (s("te"), b"trailers".to_vec()), (s("x-a"), b"".to_vec()),
+            (s("x-payload-bin"), vec![]),
+        ];
+        case_set(out, p, 3, "md", &full_set(), 0, &md);
+        case_vec(out, p, 3, "md", &[Det::Loc(s("en"), s("x"))], &md, false);
+        case_vec(out, p, 0, "", &[], &md, false);
+        case_set(out, p, 0, "", &NONE10, 0, &md);
+    }
     // boundary durations
     for (sec, nan) in [(0u64, 0u32), (0, 1), (0, 999_999_999), (1, 0), (PB_MAX_SECS, 0), (PB_MAX_SECS, 999_999_999), (PB_MAX_SECS - 1, 999_999_999), (127, 128), (1 << 35, 16_384)] {
         let mut one = NONE10;
@@ -1242,7 +1384,7 @@ fn replay(out: &mut Out, path: &str) {
     }
 }
 
-const RULE: &str = "set: random ErrorDetails built through the public builders (set_*/add_*/with_*), each of the ten kinds present with probability 1/2, strings over a unicode/empty/long alphabet, 0..7 violations/links/stack entries/metadata pairs, delays None/0/max/sub-second within the protobuf range, attached with Status::with_error_details[_and_metadata], written with add_header, read with from_header_map, decoded with every getter of StatusExt; vec: the same for random Vec<ErrorDetail> of length 0..8 with repeated kinds (vec.out_of_range: literal RetryInfo delays beyond the protobuf range, oracle restricted to kinds/order); hostile: arbitrary bytes as details - random bytes, mutated valid encodings, structured google.rpc.Status with valid/foreign/mutated/random payloads, unknown and near-miss type URLs, Duration boundaries, repeated fields, groups, bad UTF-8, non-minimal and overflowing varints, half of them through the header encoding. Non-trivial = at least one detail attached / non-empty bytes. Distinct = distinct (kind, model expression).";
+const RULE: &str = "set: random ErrorDetails built through the public builders (set_*/add_*/with_*), each of the ten kinds present with probability 1/2, strings over a unicode/empty/long alphabet, 0..7 violations/links/stack entries/metadata pairs, delays None/0/max/sub-second within the protobuf range, attached with Status::with_error_details[_and_metadata], written with add_header, read with from_header_map, decoded with every getter of StatusExt (and of RpcStatusExt on the decoded pb::Status); half of the cases carry user metadata (repeated, binary and reserved names) whose arrival is observed and judged; one detail in six is present-but-empty on purpose (None delay, no violations/links, empty strings and maps); vec: the same for random Vec<ErrorDetail> of length 0..8 with repeated kinds (vec.out_of_range: literal RetryInfo delays beyond the protobuf range, oracle restricted to kinds/order); hostile: arbitrary bytes as details - random bytes, mutated valid encodings, structured google.rpc.Status with valid/foreign/mutated/random payloads, unknown and near-miss type URLs, Duration boundaries, repeated fields, groups, bad UTF-8, non-minimal and overflowing varints, half of them through the header encoding. Non-trivial = at least one detail attached / non-empty bytes. Distinct = distinct (kind, model expression).";
 
 fn main() {
     let a = args();
@@ -1255,7 +1397,7 @@ fn main() {
     let mut r = Rng::new(a.seed);
     corpus(&mut out);
 
-    // rounds of 1 set, 1 vec, 3 hostile cases, so that every shard of the model evaluation
+    // rounds of 1 set, 1 vec, 5 hostile cases, so that every shard of the model evaluation
     // gets the same mix
     let rounds = if a.thorough { 5000 } else { 450 };
     for _ in 0..rounds {
@@ -1293,7 +1435,7 @@ fn main() {
             let plain = r.chance(1, 2);
             case_vec(&mut out, "", code, &msg, &ds, &md, plain);
         }
-        for _ in 0..3 {
+        for _ in 0..5 {
             let (bytes, family): (Vec<u8>, &str) = match r.below(12) {
                 0 => (rbytes(&mut r, 0, 24), "random"),
                 1 => {
